@@ -1,11 +1,27 @@
 use crate::prelude::SortTrack;
+#[cfg(not(similari_verif))]
 use crossbeam::channel::{Receiver, Sender};
+#[cfg(similari_verif)]
+use crate::verif::crossbeam;
+#[cfg(similari_verif)]
+use crate::verif::crossbeam::channel::{Receiver, Sender};
 use log::debug;
 
 use std::collections::HashMap;
+#[cfg(not(similari_verif))]
 use std::sync::{Arc, Mutex};
+#[cfg(similari_verif)]
+use crate::verif::sync::{Arc, Mutex};
 
+#[cfg(not(similari_verif))]
 pub type BatchRecords<T> = HashMap<u64, Vec<T>>;
+/// verification hook: fixed-key hasher, so that the dispatch order of a batch's scenes is reproducible
+#[cfg(similari_verif)]
+pub type BatchRecords<T> = HashMap<
+    u64,
+    Vec<T>,
+    std::hash::BuildHasherDefault<std::collections::hash_map::DefaultHasher>,
+>;
 pub type SceneTracks = (u64, Vec<SortTrack>);
 
 #[derive(Debug, Clone)]
